@@ -7,7 +7,8 @@
             other_want, other_got      the same three summed for a second stream in the same process that got only good packets
             write_panic                the publisher's call (WriteRtpPacket) panicked
      [e |-> "sdp", t, class, outcome ("ok"|"nil"|"panic: .."|"stuck"), relays]      a stream created from a hostile SDP
-     [e |-> "session", t, class, server_alive, other_session_ok, closed_or_answered]  hostile bytes on an RTSP connection
+     [e |-> "session", t, class, server_alive, other_session_ok, closed_or_answered, framed, stream_continues]  hostile bytes on an RTSP connection
+        (framed: they were one well-framed interleaved frame; stream_continues: a consumer of the stream was handed the good packet sent after them)
      [e |-> "leak", t, goroutines_before, goroutines_after, blocked (ipchub goroutines still there after every stream was closed)]  *)
 EXTENDS Integers, Sequences, FiniteSets, TLC, Json, IOUtils
 Trace == ndJsonDeserialize(IOEnv.VERIF_TRACE)
@@ -30,6 +31,8 @@ Next ==
        [] e.e = "session" ->
             /\ Ok(e.server_alive /\ e.other_session_ok, e, "C07:hostile-connection-disturbs-the-server-or-another-session")
             /\ Ok(e.closed_or_answered, e, "C07:hostile-connection-leaves-the-session-hanging")
+            \* a well-framed interleaved frame, whatever it carries: the stream goes on relaying what follows it
+            /\ Ok(~e.framed \/ e.stream_continues, e, "C07:stream-does-not-continue-after-a-hostile-frame")
        [] e.e = "leak" -> Ok(e.blocked = 0, e, "C07:goroutines-left-hanging-after-the-streams-were-closed")
 AllConsumed == TLCGet("stats").diameter = Len(Trace) + 1
 ================================================================================
